@@ -539,6 +539,7 @@ class OraclesMixin:
                     f"after `{op}` polars and sqlite disagree ({kind}): polars {len(cp[1])} rows, sqlite {len(cs[1])} rows; first diff {self.first_diff(cp[1], cs[1])}",
                     op=op,
                     kind=kind,
+                    cause=self.c08_cause(m, op),
                     tail="/".join(m.verbs[-3:]),
                     limit=m.n_limit,
                     window=m.n_window,
@@ -549,6 +550,13 @@ class OraclesMixin:
         for rep in canon:
             pt.first_digest[rep] = sha(canon[rep])
         return digest
+
+    @staticmethod
+    def c08_cause(m, op):
+        """model-side classification of a SQL / Polars disagreement (for known-finding matching)"""
+        if m.ung is not None and not (set(m.vis_toks()) & m.ung):
+            return "ungrouped_summarize_no_aggregate_left_in_select"
+        return "other"
 
     @staticmethod
     def first_diff(a, b):
